@@ -1,4 +1,5 @@
 import Mrpro.Lemmas.SrcL
+import Mrpro.Lemmas.SrcRotL
 import Mrpro.Model.Rotation
 import Mrpro.Lemmas.RotationL
 import Mrpro.Lemmas.EulerL
@@ -71,6 +72,16 @@ theorem toMat_matrixToQuat {K : Type} [Field K] [LinearOrder K] [IsStrictOrdered
     (hs : ∀ x, 0 ≤ x → 0 ≤ sqrt x ∧ sqrt x * sqrt x = x) (q : M.Q K) (hq : q.normSq = 1) :
     (M.matrixToQuatG sqrt q.toMat).toMat = q.toMat :=
   M.toMat_matrixToQuat sqrt hs q hq
+
+/-- … stated for the matrix formula *as it stands in the source now* (`_quaternion_to_matrix`, regenerated into
+`M.Src.rot_to_matrix` on every run): `from_matrix(as_matrix(q))` is `q` or `−q` -/
+theorem src_matrix_round_trip {K : Type} [Field K] [LinearOrder K] [IsStrictOrderedRing K] (sqrt : K → K)
+    (hs : ∀ x, 0 ≤ x → 0 ≤ sqrt x ∧ sqrt x * sqrt x = x) (q : M.Q K) (hq : q.normSq = 1) :
+    M.matrixToQuatG sqrt (M.Src.rot_to_matrix q.a q.b q.c q.w) = q ∨ M.matrixToQuatG sqrt (M.Src.rot_to_matrix q.a q.b q.c q.w) = q.neg := by
+  rw [M.SrcL.rot_to_matrix_eq]; exact M.matrixToQuat_toMat sqrt hs q hq
+/-- the quaternion product in the source (`_compose_quaternions_single`) is the model's `Q.mul` -/
+theorem src_compose {K : Type} [CommRing K] (p q : M.Q K) : M.Src.rot_compose p.a p.b p.c p.w q.a q.b q.c q.w = M.Q.mul p q :=
+  M.SrcL.rot_compose_eq p q
 
 /-- the instance at the reals with `Real.sqrt` -/
 theorem matrixToQuat_toMat_real (q : M.Q ℝ) (hq : q.normSq = 1) :
